@@ -13,8 +13,9 @@ func streamWorkload(name string, count map[string]int, opts streamGenOpts) *Work
 			}
 			return genStreamCase(t, o)
 		},
-		Run: func(c any, keep bool) Outcome { return runStreamCase(c.(*StreamCase), keep) },
-		New: func() any { return &StreamCase{} },
+		Run:      func(c any, keep bool) Outcome { return runStreamCase(c.(*StreamCase), keep) },
+		New:      func() any { return &StreamCase{} },
+		Simplify: simplifyStream,
 	}
 }
 
@@ -74,8 +75,9 @@ func sweepWorkload(count map[string]int) *Workload {
 			}
 			return c
 		},
-		Run: func(c any, keep bool) Outcome { return runStreamCase(c.(*StreamCase), keep) },
-		New: func() any { return &StreamCase{} },
+		Run:      func(c any, keep bool) Outcome { return runStreamCase(c.(*StreamCase), keep) },
+		New:      func() any { return &StreamCase{} },
+		Simplify: simplifyStream,
 	}
 }
 
@@ -89,7 +91,7 @@ func registerStream() {
 	register(&Property{
 		ID:    "C02",
 		Level: "exploration",
-		Rule: "seeded configurations (files x values x selectors x mixes of BEGIN/END/BEGINFILE/ENDFILE/pattern rules x root shapes x next/exit placements x pattern truth) run through lang.EvalProgram under benign read schedules; stdout compared byte for byte with an executable reference model of the awk schedule. Distinct = distinct event-log shape (sequence of read classes relative to value boundaries and writes); non-trivial = at least one write and two events.",
+		Rule:  "seeded configurations (files x values x selectors x mixes of BEGIN/END/BEGINFILE/ENDFILE/pattern rules x root shapes x next/exit placements x pattern truth) run through lang.EvalProgram under benign read schedules; stdout compared byte for byte with an executable reference model of the awk schedule. Distinct = distinct event-log shape (sequence of read classes relative to value boundaries and writes); non-trivial = at least one write and two events.",
 		Assumptions: []string{
 			"the reference schedule model (tracemodel.go) is written from the property statement and README",
 			"trace programs only observe what the statement fixes: $ in ENDFILE, $index under non-array roots, next outside pattern rules and failing selectors are not generated",
@@ -105,7 +107,7 @@ func registerStream() {
 	register(&Property{
 		ID:    "C03",
 		Level: "fault_enumeration",
-		Rule: "seeded JSON value streams, trace programs and read schedules; every truncation point and every I/O-error offset enumerated for each short stream (fault-sweep), sampled corruption/stray text/truncation/EIO on longer multi-file streams (faults), adversarial chunkings without faults (chunking). Monitor M1 (incremental output) evaluated inside every Read; outcome, error file name and stdout compared with jsonref + schedule model. Distinct = distinct event-log shape (read classes relative to value boundaries, zero reads, EOF/error events, writes); non-trivial = at least one write and two events.",
+		Rule:  "seeded JSON value streams, trace programs and read schedules; every truncation point and every I/O-error offset enumerated for each short stream (fault-sweep), sampled corruption/stray text/truncation/EIO on longer multi-file streams (faults), adversarial chunkings without faults (chunking). Monitor M1 (incremental output) evaluated inside every Read; outcome, error file name and stdout compared with jsonref + schedule model. Distinct = distinct event-log shape (read classes relative to value boundaries, zero reads, EOF/error events, writes); non-trivial = at least one write and two events.",
 		Assumptions: []string{
 			"jsonref decides which values are complete in a byte stream (RFC 8259 token grammar, greedy)",
 			"an I/O error immediately after the last byte of a value (no following byte delivered) may or may not process that value; the error itself stays mandatory",
